@@ -1,42 +1,68 @@
 """C45 — only an ONT ID's authorized keys or controllers can change it (spec/OntId.tla)."""
+from concurrent.futures import ThreadPoolExecutor
+
 import _ontid as oi
 
 
 def run(ctx):
     T = ctx.thorough
-    binary = ctx.go_test_bin("smartcontract/service/native/ontid", harness="c45_ontid", hide_own_tests=True)
-    # 1. the specification satisfies OnlyAuthorized, RevokedFinal, RevokedEmpty (TLC, all workers, no export)
-    oi.tlc_design(ctx, "OntId_C45t.cfg" if T else "OntId_C45.cfg")
+    # the TLC runs and the harness build are independent subprocesses: started together (ctx.stage_specs is locked)
+    pool = ThreadPoolExecutor(max_workers=8)
+    fbin = pool.submit(ctx.go_test_bin, "smartcontract/service/native/ontid", harness="c45_ontid", hide_own_tests=True)
+    # 1. the specification satisfies OnlyAuthorized, RevokedFinal, RevokedNotRegistered, RevokedEmpty (TLC, no export)
+    #    at/above the new-ONT-ID fork height and below it
+    fdesign = [pool.submit(oi.tlc_design, ctx, "OntId_C45t.cfg" if T else "OntId_C45.cfg"),
+               pool.submit(oi.tlc_design, ctx, "OntId_C45pret.cfg" if T else "OntId_C45pre.cfg")]
+    # (tag, initial states, MaxOps, simulation, below the fork height)
+    runs = [("E1", "InitsAll", 1, None, False), ("P1", "InitsPre" if T else "InitsPreQ", 1, None, True),
+            ("R", "InitsAll", 1000, ("num=%d" % (60 if T else 30), 30), False)]
+    if T:
+        runs[2:2] = [("E2", "Inits1", 2, None, False), ("E3", "Inits2", 2, None, False), ("E4", "InitsRev", 2, None, False)]
+        runs.append(("PR", "InitsPre", 1000, ("num=40", 30), True))
+    fexp = [pool.submit(oi.tlc_export, ctx, "OntId_%s.cfg" % tag, inits, max_ops, simulate=sim[0] if sim else None,
+                        depth=sim[1] if sim else None, pre=pre) for tag, inits, max_ops, sim, pre in runs]
+    binary = fbin.result()
     npaths = nsteps = 0
     seen = set()
+    regrev = {False: set(), True: set()}
     if binary:
-        runs = [("E1", "InitsAll", 1, None), ("R", "InitsAll", 1000, ("num=%d" % (60 if T else 30), 30))]
-        if T:
-            runs[1:1] = [("E2", "Inits1", 2, None), ("E3", "Inits2", 2, None)]
-        for tag, inits, max_ops, sim in runs:
-            mc = oi.tlc_export(ctx, "OntId_%s.cfg" % tag, inits, max_ops, simulate=sim[0] if sim else None, depth=sim[1] if sim else None)
+        for (tag, inits, max_ops, sim, pre), f in zip(runs, fexp):
+            mc = f.result()
             if not mc:
                 continue
             r, edges, inits_ = mc
             seen |= {e["act"]["name"] for e in edges}
             paths, ncov = ctx.cover(edges, inits_, max_len=80)
             ctx.log("run %s: cover %d paths, %d steps, %d/%d edges" % (tag, len(paths), sum(len(p["steps"]) for p in paths), ncov, len(edges)))
-            obs = oi.run_paths(ctx, binary, paths, tag)
+            obs = oi.run_paths(ctx, binary, paths, tag, pre=pre)
             if obs:
-                nsteps += oi.check(ctx, paths, obs)
+                nsteps += oi.check(ctx, paths, obs, pre=pre)
                 npaths += len(paths)
+                regrev[pre] |= oi.reg_on_revoked(paths)
             if paths and len(ctx.samples) < 4:
                 ctx.samples.append({"run": tag, "init": oi.which_init(paths[-1]["init"]), "replayed_path": [s["act"] for s in paths[-1]["steps"][:5]]})
         missing = [a for a in oi.ACTS if a not in seen]
         if missing:
             ctx.infra("vacuous: actions never taken in any exported run: %s" % missing)
+        # every registration entry point must have been tried on a revoked identity, with and without witnesses,
+        # on both sides of the fork height
+        for pre in (False, True):
+            lack = [(a, c) for a in oi.REG_ACTS for c in ("witnessed", "unwitnessed") if (a, c) not in regrev[pre]]
+            if lack:
+                ctx.infra("vacuous: no registration attempt on a revoked identity replayed for %s (below fork height: %s)" % (lack, pre))
+    for f in fdesign + fexp:
+        f.result()
+    pool.shutdown()
     ctx.finish("model_checking", {
         "states": ctx.stats["states"], "transitions": ctx.stats["transitions"],
         "traces_validated_against_impl": npaths, "replayed_steps": nsteps,
         "constants": {"ids": oi.IDS, "keys": oi.KEYS, "max_keys_per_id": 2, "groups": ["{A,B} 2-of-2", "{A,B} 1-of-2"],
-                      "signer_sets": "all subsets of the 3 keys", "init_states": sorted(oi.SETUPS)},
+                      "signer_sets": "all subsets of the 3 keys", "init_states": sorted(oi.SETUPS),
+                      "heights": ["new-ONT-ID fork height + 100", "fork height - 1"]},
+        "registration_attempts_on_revoked_identity": {("below_fork" if k else "above_fork"): sorted("%s/%s" % t for t in v) for k, v in regrev.items()},
         "methods": oi.ACTS, "exhaustive": True,
-    }, ["block height = config.GetNewOntIdHeight()+100 (all new-ONT-ID methods registered, version-1 key records)",
+    }, ["block height = config.GetNewOntIdHeight()+100 (all new-ONT-ID methods registered, version-1 key records), and, for the "
+        "NewOntId = FALSE runs, GetNewOntIdHeight()-1 (main net id; old methods only, version-0 key records); no history crosses the fork height",
         "signer sets are installed through the transaction's SignedAddr (what CheckWitness reads); keys are ECDSA P-256",
         "group controllers/recoveries are flat groups of registered identities with threshold >= 1 (no nested groups, no threshold 0)",
-        "27 of the contract's methods are modelled (service/context/proof methods and the *ByRecovery auth-key variants are not)"])
+        "28 of the contract's methods are modelled (service/context/proof methods and the *ByRecovery auth-key variants are not)"])
